@@ -66,7 +66,7 @@ def runs(p):
         if p['ctx'] == 'group':
             real = [rs.ops.group_by(lambda i: 1 if i[2] else 0, real)]
             ref = [R.GroupBy(lambda i: 1 if i[2] else 0, ref)]
-        got = _nonempty(D.run_timed(items, real))
+        got = _nonempty(D.run_timed_after_abort(items, real, p['retry']) if p.get('retry') is not None else D.run_timed(items, real))
         exp = _nonempty(R.run(ref, items))
         if got == exp:
             return True
@@ -96,6 +96,8 @@ def obligations(tier, seed):
         for n in ((3,) if q else (3, 4)):
             obs.append(Ob(PROP, 'runs', dict(n=n, act='sym', inact='sym', closing=closing, include=include, ctx='group', nozero=closing), budget=400 if q else 1800,
                           bound=dict(items=n, groups=2)))
+    for k in (1, 2):
+        obs.append(Ob(PROP, 'runs', dict(n=3, act='sym', inact='sym', closing=False, include=True, ctx='root', retry=k, nozero=True), budget=400 if q else 1800, group='after an aborted subscription', bound=dict(items=3, first_subscription_aborted_after=k)))
     for ctx in ('root', 'group'):
         obs.append(Ob(PROP, 'runs', dict(n=3, act='sym', inact='sym', closing=False, include=True, ctx=ctx, after=True), budget=400 if q else 1800, bound=dict(items=3, ctx=ctx, consumer_after_time_split=True)))
     obs.append(Ob(PROP, 'runs', dict(n=3, act='sym', inact='sym', closing=True, include=True, ctx='root', _twin='reach'), budget=60, expect='refute'))
